@@ -13,7 +13,7 @@ Q = 'pokerkit.state.State.'
 NAMES = ['begin_showdown', 'verify_selection', 'select_runout_count', 'end_showdown', 'end_bet_collection', 'board_count',
          'get_board_cards', 'deal_board']
 HAVOC = {'begin_showdown': ['_update_showdown'], 'select_runout_count': ['_update_showdown'],
-         'end_showdown': ['_begin_dealing', '_begin_hand_killing'],
+         'end_showdown': ['_begin_dealing', '_begin_hand_killing', '_begin_chips_pushing'],
          'end_bet_collection': ['_begin_chips_pushing', '_begin_blind_or_straddle_posting', '_begin_showdown', '_begin_dealing'],
          'deal_board': ['_update_dealing']}
 
